@@ -38,6 +38,21 @@ Follow-up b13 - three new dimensions:
     profiles (legacy/taproot, commit sweep / + HTLC timeout / + anchor), stops at every durable write, restarts;
     after every write the durable state of EVERY channel is read back (pending/closed, log state, contracts, reports);
     keys "C13:ChainArb:<invariant>:<event>".
+
+Follow-up b13e - two sibling parts for the two ends of the hand-offs that the main part only had as world bits:
+  * part B - spec/Arbitrator/BreachJustice{,MC,Gen,Trace}.tla + harness/contractcourt/c13_breach_test.go: the breach
+    scenario with the REAL BreachArbitrator (real RetributionStore on the real channeldb: handleBreachHandoff, start()
+    with its reconciliation of the store against closed channels, exactRetribution, cleanupBreach) and the REAL
+    breachResolver persisted in a real boltArbitratorLog; plans of driver tokens (hand-off, mark pending, insert /
+    relaunch the resolver, breach tx confirms, counterparty takes an output, justice tx confirms, stop+start of BOTH) with
+    a stop at every position, an injected stop at the k-th durable write (Add, MarkFullyClosed, Remove, Checkpoint),
+    double stops, and plans from TLC-simulated behaviours; after every line the durable state (retribution present,
+    channel open/pending/closed, resolver record none/unres/res) is read back; keys "C13:Breach:<invariant>:<event>";
+  * part S - spec/Arbitrator/SwitchRes{,MC,Gen,Trace}.tla + harness/htlcswitch/c13_res_test.go: the last leg of "each
+    upstream HTLC is settled or failed back the same way": ProcessContractResolution on the REAL Switch with a real
+    channeldb (resolution message store, ACK, forwarder, incoming link's mailbox, circuit teardown, link flaps) and
+    Stop / reopen / Start (reforwardResolutions); every packet the incoming link is handed is recorded with its kind and
+    the class of its failure reason as the upstream peer can read it; keys "C13:SwitchRes:<invariant>:<event>/<kind>".
 """
 import collections
 import copy
@@ -52,7 +67,7 @@ SPEC = os.path.join(core.VERIF, "spec", "Arbitrator")
 LEVEL = "model_checking"
 PKG = "./contractcourt/"
 MC_WORKERS = int(os.environ.get("C13_MC_WORKERS", "4"))
-HARNESS = ["contractcourt/c13_test.go", "contractcourt/c13_chainarb_test.go"]
+HARNESS = ["contractcourt/c13_test.go", "contractcourt/c13_chainarb_test.go", "contractcourt/c13_breach_test.go"]
 QUICK_SCEN = ["local", "remote", "localfar", "alocal", "tcontest", "tsuccess"]
 BASE_SCEN = ["local", "remote", "localfar", "contest", "rcontest", "claim", "success", "breach", "coop", "shift", "rshift"]
 TYPED = ["local", "remote", "contest", "rcontest", "claim", "success"]
@@ -685,12 +700,422 @@ def part_m(ck, thorough):
                                              recs[run["start"]:run["end"]]][:60]})
 
 
+# ------------------------------------------------------------------------------------------------ part B
+# the breach scenario with the real BreachArbitrator + breachResolver (spec/Arbitrator/BreachJustice*.tla)
+B_TOKENS = {"H", "M", "I", "L", "C", "Tl", "Tr", "J", "X"}
+
+
+def b_model_checks(ck, thorough):
+    ncr = 6 if thorough else 3
+    r = ck.model_check(SPEC, "BreachJusticeMC", "BreachJusticeMC.cfg",
+                       "BreachJustice: hand-off, start-up reconciliation, justice, breach resolver, <= %d stops" % ncr,
+                       constants={"MaxCrashes": ncr}, workers=2, timeout=900, name="mc_breach")
+    shown = {}
+    for cfg, inv, what in (("BreachJusticeDrop.cfg", "RetKept",
+                            "control: start() dropping the retribution of a PENDING-close channel must break RetKept"),
+                           ("BreachJusticeEarly.cfg", "ResolvedOnlyAfterJustice",
+                            "control: a breach resolver that checkpoints without waiting must break ResolvedOnlyAfterJustice")):
+        c = ck.model_check(SPEC, "BreachJusticeMC", cfg, what, must_hold=False, workers=2, timeout=600,
+                           name="mc_" + cfg.split(".")[0])
+        if inv not in (c.violation or ""):
+            raise Inconclusive("spec/Arbitrator/BreachJustice: %s did not break %s (got %s)" % (cfg, inv, c.violation))
+        shown[inv] = dict(result="violated by the control action, as it must", states=c.distinct)
+    ck.cov["breach_model"] = dict(states=r.distinct, transitions=r.generated, max_crashes=ncr, controls=shown)
+
+
+def b_plans_from_behaviours(files):
+    plans, seen = [], set()
+    for f in files:
+        toks = [e["t"] for e in core.read_ndjson(f) if e["t"] in B_TOKENS]
+        if "X" in toks and tuple(toks) not in seen:
+            seen.add(tuple(toks))
+            plans.append({"toks": toks, "stop": 0})
+    return plans
+
+
+def b_execute(ck, env, name):
+    res = ck.go_test(PKG, "^TestVerifC13Breach$", HARNESS, env=env, name=name, timeout=1800)
+    trace = os.path.join(res["dir"], "trace_b.ndjson")
+    pan = lnd_panic(res["out"])
+    if pan:
+        ck.violation("C13:Breach:panic:%s" % pan[0],
+                     "the real code panicked while the BreachArbitrator / breachResolver ran a stop plan; top lnd frame %s" % pan[0],
+                     files={"go.out": os.path.join(res["dir"], "go.out")}, text=pan[1])
+        return None
+    if "HARNESS-ERROR" in res["out"]:
+        raise Inconclusive("Breach executor could not complete (environment, not judged): %s" %
+                           re.findall(r"HARNESS-ERROR (.*)", res["out"])[:3])
+    if res["rc"] != 0 or not os.path.exists(trace):
+        raise Inconclusive("Breach executor failed:\n" + res["out"][-3000:])
+    return trace
+
+
+def b_runs(recs):
+    runs, cur = [], None
+    for i, r in enumerate(recs):
+        if r["a"] == "Reset":
+            cur = dict(start=i, plan=r.get("plan", ""))
+            runs.append(cur)
+        cur["end"] = i + 1
+    return runs
+
+
+def b_plan_of(run):
+    toks, _, stop = run["plan"].partition("|")
+    return {"toks": [x for x in toks.split(".") if x], "stop": int(stop or 0)}
+
+
+def b_text(one):
+    return "\n".join("%-11s %-16s %-6s ins=%-18s cp=%d r=%d err=%d | ret=%d chan=%-7s resolver=%s" % (
+        r["a"], r["w"], r["o"], ",".join(r["ins"]), r["cp"], r["r"], r["err"], r["ret"], r["ch"], r["rr"]) for r in one)
+
+
+def b_judge(ck, trace, tag):
+    recs = core.read_ndjson(trace)
+    runs = b_runs(recs)
+    stall = next((r for r in recs if r["a"] == "Stall"), None)
+    if stall is not None:
+        # a wait of the driver ran out (60 s): under load this is not a verdict about the code
+        raise Inconclusive("Breach executor: the node did not get to a rest state within the patience (%s)" % stall["w"])
+    v = ck.validate(SPEC, "BreachJusticeTrace", "BreachJusticeTrace.cfg", trace, name="val_b_" + tag, timeout=1800)
+    if v["ok"]:
+        return recs, runs, False
+    line = v["line"] or 1
+    run = next((x for x in runs if x["start"] < line <= x["end"]), runs[-1])
+    bad = recs[min(line - 1, len(recs) - 1)]
+    d = ck.scratch("b_nonconform")
+    one = os.path.join(d, "trace_b.ndjson")
+    core.write_ndjson(one, recs[run["start"]:run["end"]])
+    pl = os.path.join(d, "plan_b.ndjson")
+    core.write_ndjson(pl, [b_plan_of(run)])
+    inv = (v["invariant"] or "?").replace("invariant ", "").replace("property ", "")
+    ck.violation("C13:Breach:%s:%s/%s" % (inv, bad.get("a"), bad.get("w") or bad.get("o") or "-"),
+                 "real BreachArbitrator / breachResolver break spec/Arbitrator/BreachJustice (%s) in run %s at line %d of the "
+                 "batch: event %s %s with durable state retribution=%s channel=%s breach-resolver=%s. The model allows the "
+                 "retribution of a breached channel to leave the store only through cleanupBreach (after every breached "
+                 "output is spent and the channel is marked fully closed) or, at start-up, for a channel that IS fully "
+                 "closed; the breach contract is checkpointed resolved only after that, and a run with stops ends like the "
+                 "uninterrupted one (channel closed, store empty, resolver resolved, all outputs swept)" % (
+                     v["invariant"], run["plan"], line, bad.get("a"), bad.get("w") or bad.get("o") or "",
+                     bad.get("ret"), bad.get("ch"), bad.get("rr")),
+                 files={"trace_b.ndjson": one, "plan_b.ndjson": pl},
+                 text=b_text(recs[run["start"]:min(line + 1, run["end"])]) + "\n\n" + (v["cex"] or ""))
+    return recs, runs, True
+
+
+def b_negative_controls(ck, recs, runs):
+    ref = next((r for r in runs if "X" not in r["plan"] and r["plan"].endswith("|0")
+                and any(x["a"] == "Subscribe" and x["cp"] == 0 for x in recs[r["start"]:r["end"]])), None)
+    if ref is None:
+        raise Inconclusive("Breach: no uninterrupted run with a waiting resolver for the negative controls")
+    one = recs[ref["start"]:ref["end"]]
+    controls = []
+
+    def check(name, bad, want):
+        p = os.path.join(ck.out, "control_b_%s.ndjson" % name)
+        core.write_ndjson(p, bad)
+        v = ck.validate(SPEC, "BreachJusticeTrace", "BreachJusticeTrace.cfg", p, name="control_b_" + name)
+        if v["ok"] or want not in (v["invariant"] or ""):
+            raise Inconclusive("Breach negative control %s not rejected by %s (%s)" % (name, want, v["invariant"]))
+        return dict(rejected_by=v["invariant"], at_line=v["line"])
+
+    # 1. the retribution read back as gone while the channel is pending
+    bad = copy.deepcopy(one)
+    i = next(j for j, r in enumerate(bad) if r["a"] == "MarkPending")
+    bad[i]["ret"] = 0
+    controls.append(dict(mutation="retribution flag cleared at line %d (MarkPending)" % (i + 1), **check("ret", bad, "Conform")))
+    # 2. SubscribeBreachComplete answers `complete` although the retribution is still there
+    bad = copy.deepcopy(one)
+    i = next(j for j, r in enumerate(bad) if r["a"] == "Subscribe" and r["cp"] == 0)
+    bad[i]["cp"] = 1
+    controls.append(dict(mutation="Subscribe answer flipped to complete at line %d" % (i + 1), **check("sub", bad, "deadlock")))
+    # 3. the run ends before the channel is fully closed
+    i = next(j for j, r in enumerate(one) if r["w"] == "MarkFullyClosed")
+    end = copy.deepcopy(one[i - 1])
+    end.update(a="End", w="", o="", ins=[], cp=0, r=0, err=0)
+    controls.append(dict(mutation="run truncated before MarkChanFullyClosed", **check("verdict", copy.deepcopy(one[:i]) + [end],
+                                                                                  "VerdictInv")))
+    ck.cov["breach_negative_controls"] = controls
+
+
+def part_b(ck, thorough, replay_plan=None):
+    if replay_plan:
+        trace = b_execute(ck, {"VERIF_C13B_ENUM": 0, "VERIF_C13B_PLANS": replay_plan}, "replay_b")
+        if trace is not None:
+            recs, runs, _ = b_judge(ck, trace, "replay")
+            ck.cov.update(states=1, transitions=1, evaluations=len(recs), traces_validated_against_impl=len(runs))
+        return
+    b_model_checks(ck, thorough)
+    files = ck.generate(SPEC, "BreachJusticeGen", "BreachJusticeGen.cfg", 300 if thorough else 60, 80,
+                        constants={"NC": 3 if thorough else 2, "MaxCrashes": 3}, name="gen_breach", timeout=600)
+    plans = b_plans_from_behaviours(files)
+    pf = os.path.join(ck.out, "plans_b.ndjson")
+    core.write_ndjson(pf, plans)
+    trace = b_execute(ck, {"VERIF_C13B_ENUM": 1, "VERIF_C13B_PLANS": pf}, "exec_b")
+    if trace is None:
+        return
+    recs, runs, rejected = b_judge(ck, trace, "all")
+    if not rejected:
+        b_negative_controls(ck, recs, runs)
+    distinct = set(core.sha(str([(r["a"], r["w"], r["o"], r["cp"], tuple(r["ins"])) for r in recs[x["start"]:x["end"]]]))
+                   for x in runs)
+    ck.cov["breach"] = dict(runs=len(runs), lines=len(recs), from_model_behaviours=len(plans),
+                            with_injected_stop=sum(1 for x in runs if not x["plan"].endswith("|0")),
+                            with_restart=sum(1 for x in runs if any(r["a"] == "Started" for r in recs[x["start"]:x["end"]])),
+                            start_up_reconciliations=sum(1 for i, r in enumerate(recs) if r["w"] == "Remove" and i + 1 < len(recs)
+                                                         and recs[i + 1]["a"] == "Started"),
+                            write_kinds_executed=dict(collections.Counter(r["w"] for r in recs if r["a"] == "Write")),
+                            distinct_event_sequences=len(distinct), rejected=rejected)
+    ck.cov["evaluations"] += len(recs)
+    ck.cov["traces_validated_against_impl"] += len(runs)
+    ck.cov["distinct_nontrivial"] += len(distinct)
+    for x in runs[:1]:
+        ck.cov["samples"].append({"breach_plan": x["plan"],
+                                  "events": ["%s:%s" % (r["a"], r["w"] or r["o"] or ",".join(r["ins"])) for r in
+                                             recs[x["start"]:x["end"]]][:40]})
+
+
+
+# ------------------------------------------------------------------------------------------------ part S
+# the last leg: contract court ResolutionMsg -> htlcswitch (store, ACK, forwarder, incoming link's mailbox, teardown,
+# restart replay) (spec/Arbitrator/SwitchRes*.tla, harness/htlcswitch/c13_res_test.go)
+PKG_S = "./htlcswitch/"
+HARNESS_S = ["htlcswitch/c13_res_test.go"]
+S_INVS = ("SameWay", "NoContradiction", "NoLoss", "Held", "NothingBeforeIssue", "ConformStore", "ConformCircuit")
+
+
+def s_is_reset(r):
+    return r.get("a") == "Reset"
+
+
+def s_model_checks(ck, thorough):
+    r = ck.model_check(SPEC, "SwitchResMC", "SwitchResMC.cfg",
+                       "SwitchRes: one forwarded HTLC, fail|settle resolution, link A up/down, every interleaving of "
+                       "deliver/recv/teardown/link flap, <= %d restarts, <= %d sends" % ((3, 3) if thorough else (2, 2)),
+                       constants={"MaxRestarts": 3 if thorough else 2, "MaxSends": 3 if thorough else 2},
+                       workers=2, timeout=600, name="mc_switchres")
+    c = ck.model_check(SPEC, "SwitchResMC", "SwitchResMCQuirk.cfg",
+                       "control: a restart replay that is not flagged as a resolution must break SameWay",
+                       must_hold=False, workers=2, timeout=300, name="mc_switchres_quirk")
+    if "SameWay" not in (c.violation or ""):
+        raise Inconclusive("spec/Arbitrator/SwitchRes: SwitchResMCQuirk.cfg did not break SameWay (got %s)" % c.violation)
+    ck.cov["switchres_model"] = dict(states=r.distinct, transitions=r.generated, depth=r.depth,
+                                     max_restarts=3 if thorough else 2,
+                                     controls={"SameWay": "violated by the unflagged-replay control, as it must"})
+
+
+def s_plans_from_behaviours(files):
+    plans, seen = [], set()
+    for f in files:
+        hist = core.read_ndjson(f)
+        if not hist:
+            continue
+        steps = (["LinkDown"] if hist[0]["link"] == "down" else []) + [e["a"] for e in hist if e["a"] != "Recv"]
+        # cut the tail after the last event that matters (trailing link flaps add nothing)
+        while steps and steps[-1] in ("LinkDown",):
+            steps.pop()
+        key = (hist[0]["kind"], tuple(steps))
+        if "Deliver" in steps and key not in seen:
+            seen.add(key)
+            plans.append({"kind": hist[0]["kind"], "steps": steps})
+    return plans
+
+
+def s_execute(ck, env, name):
+    e = {"TMPDIR": "/dev/shm" if os.path.isdir("/dev/shm") else "/tmp"}
+    e.update(env)
+    res = ck.go_test(PKG_S, "^TestVerifC13SwitchRes$", HARNESS_S, env=e, name=name, timeout=1500)
+    trace = os.path.join(res["dir"], "trace_s.ndjson")
+    pan = lnd_panic(res["out"])
+    if pan:
+        ck.violation("C13:SwitchRes:panic:%s" % pan[0],
+                     "the real htlcswitch panicked while a contract resolution was delivered / replayed; top lnd frame %s" % pan[0],
+                     files={"go.out": os.path.join(res["dir"], "go.out")}, text=pan[1])
+        return None
+    if "HARNESS-ERROR" in res["out"]:
+        m = re.findall(r"HARNESS-ERROR (.*)", res["out"])
+        raise Inconclusive("SwitchRes executor could not complete %d run(s) (environment, not judged): %s" % (len(m), m[:3]))
+    if res["rc"] != 0 or not os.path.exists(trace):
+        raise Inconclusive("SwitchRes executor failed:\n" + res["out"][-3000:])
+    return trace
+
+
+def s_runs(recs):
+    runs, cur = [], None
+    for i, r in enumerate(recs):
+        if s_is_reset(r):
+            cur = dict(start=i, plan=r.get("plan", ""), kind=r.get("kind", ""))
+            runs.append(cur)
+        cur["end"] = i + 1
+    return runs
+
+
+def s_plan_of(run):
+    kind, _, steps = run["plan"].partition(":")
+    return {"kind": kind, "steps": [x for x in steps.split(",") if x]}
+
+
+def s_text(one):
+    return "\n".join("%-9s e=%d | stored=%d(%s) open_circuits=%d | link A got: %s" % (
+        r["a"], r["e"], r["st"], r["stk"], r["op"],
+        "-" if r["a"] != "Recv" else "%s reason=%s preimage_ok=%d" % (r["pk"], r["rs"], r["pi"])) for r in one)
+
+
+def s_judge(ck, trace, tag):
+    """Validate the batch; the first rejection is reported - returns (recs, runs, rejected)."""
+    recs = core.read_ndjson(trace)
+    runs = s_runs(recs)
+    v = ck.validate(SPEC, "SwitchResTrace", "SwitchResTrace.cfg", trace, name="val_s_" + tag, timeout=600)
+    if v["ok"]:
+        return recs, runs, False
+    line = v["line"] or 1
+    run = next((x for x in runs if x["start"] < line <= x["end"]), runs[-1])
+    bad = recs[min(line - 1, len(recs) - 1)]
+    d = ck.scratch("s_nonconform")
+    one = os.path.join(d, "trace_s.ndjson")
+    core.write_ndjson(one, recs[run["start"]:run["end"]])
+    pl = os.path.join(d, "plan_s.ndjson")
+    core.write_ndjson(pl, [s_plan_of(run)])
+    inv = (v["invariant"] or "?").replace("invariant ", "").replace("property ", "")
+    what = {
+        "SameWay": "the incoming link was handed a response that is not the one an uninterrupted run produces (a fail must be "
+                   "a FailPermanentChannelFailure the first hop can read, a settle must carry the preimage)",
+        "NoContradiction": "the incoming link was handed both a fail and a settle for the same HTLC",
+        "NoLoss": "an ACKed resolution is not in the resolution store although its circuit is still open",
+        "Held": "an ACKed resolution whose circuit is open is not held for the incoming link",
+        "ConformStore": "the resolution store content differs from the model's",
+        "ConformCircuit": "the number of open circuits differs from the model's",
+        "deadlock": "the model does not allow this step here (a response that was never issued, a response that is missing, "
+                    "or an unexpected error of the call)",
+    }.get(inv, inv)
+    ck.violation("C13:SwitchRes:%s:%s/%s" % (inv, bad.get("a"), run["kind"]),
+                 "real htlcswitch breaks spec/Arbitrator/SwitchRes (%s) in run '%s' at line %d of the batch, event %s: %s. "
+                 "Recorded: stored msgs=%s(%s) open circuits=%s; packet kind=%s reason=%s preimage_ok=%s"
+                 % (v["invariant"], run["plan"], line, bad.get("a"), what, bad.get("st"), bad.get("stk"), bad.get("op"),
+                    bad.get("pk"), bad.get("rs"), bad.get("pi")),
+                 files={"trace_s.ndjson": one, "plan_s.ndjson": pl},
+                 text=s_text(recs[run["start"]:min(line + 1, run["end"])]) + "\n\n" + (v["cex"] or ""))
+    return recs, runs, True
+
+
+def s_negative_controls(ck, recs, runs):
+    """Corrupted recorded fields of an accepted run must be rejected."""
+    controls = []
+
+    def pick(cond):
+        for run in runs:
+            one = recs[run["start"]:run["end"]]
+            for j, r in enumerate(one):
+                if cond(run, one, j, r):
+                    return copy.deepcopy(one), j
+        return None, None
+
+    # 1. the replayed/forwarded failure is not readable by the upstream peer
+    bad, i = pick(lambda run, one, j, r: r["a"] == "Recv" and r["rs"] == "perm" and any(x["a"] == "Restart" for x in one[:j]))
+    if bad is None:
+        bad, i = pick(lambda run, one, j, r: r["a"] == "Recv" and r["rs"] == "perm")
+    if bad is None:
+        raise Inconclusive("SwitchRes: no accepted run with a delivered failure for the negative control")
+    bad[i]["rs"] = "unreadable"
+    p = os.path.join(ck.out, "control_s_reason.ndjson")
+    core.write_ndjson(p, bad)
+    v = ck.validate(SPEC, "SwitchResTrace", "SwitchResTrace.cfg", p, name="control_s_reason")
+    if v["ok"] or "SameWay" not in (v["invariant"] or ""):
+        raise Inconclusive("SwitchRes negative control: unreadable failure reason not rejected by SameWay (%s)" % v["invariant"])
+    controls.append(dict(mutation="reason class of the Recv at line %d flipped perm -> unreadable" % (i + 1),
+                         rejected_by=v["invariant"], at_line=v["line"]))
+    # 2. a settle handed to the link in a run whose resolution is a fail
+    bad, i = pick(lambda run, one, j, r: r["a"] == "Recv" and r["pk"] == "fail")
+    if bad is not None:
+        bad[i].update(pk="settle", rs="none", pi=1)
+        p = os.path.join(ck.out, "control_s_kind.ndjson")
+        core.write_ndjson(p, bad)
+        v = ck.validate(SPEC, "SwitchResTrace", "SwitchResTrace.cfg", p, name="control_s_kind")
+        if v["ok"] or "SameWay" not in (v["invariant"] or ""):
+            raise Inconclusive("SwitchRes negative control: settle for a failed HTLC not rejected (%s)" % v["invariant"])
+        controls.append(dict(mutation="Recv at line %d turned into a settle in a fail run" % (i + 1),
+                             rejected_by=v["invariant"], at_line=v["line"]))
+    # 3. the stored message is gone after a restart although the circuit is open
+    bad, i = pick(lambda run, one, j, r: r["a"] == "Restart" and r["st"] == 1 and r["op"] == 1)
+    if bad is not None:
+        bad[i].update(st=0, stk="none")
+        p = os.path.join(ck.out, "control_s_store.ndjson")
+        core.write_ndjson(p, bad[:i + 1])
+        v = ck.validate(SPEC, "SwitchResTrace", "SwitchResTrace.cfg", p, name="control_s_store")
+        if v["ok"] or "ConformStore" not in (v["invariant"] or ""):
+            raise Inconclusive("SwitchRes negative control: lost stored resolution not rejected (%s)" % v["invariant"])
+        controls.append(dict(mutation="stored resolution cleared on the Restart at line %d (circuit open)" % (i + 1),
+                             rejected_by=v["invariant"], at_line=v["line"]))
+    # 4. the replay after a restart never reaches the link: the Recv line is dropped
+    bad, i = pick(lambda run, one, j, r: r["a"] == "Recv" and j > 0 and one[j - 1]["a"] == "LinkUp"
+                  and any(x["a"] == "Restart" for x in one[:j]))
+    if bad is not None:
+        del bad[i]
+        p = os.path.join(ck.out, "control_s_lost.ndjson")
+        core.write_ndjson(p, bad)
+        v = ck.validate(SPEC, "SwitchResTrace", "SwitchResTrace.cfg", p, name="control_s_lost")
+        if v["ok"]:
+            raise Inconclusive("SwitchRes negative control: a replay that never reaches the link was accepted")
+        controls.append(dict(mutation="Recv after the post-restart LinkUp (line %d) removed" % (i + 1),
+                             rejected_by=v["invariant"], at_line=v["line"]))
+    ck.cov["switchres_negative_controls"] = controls
+
+
+def part_s(ck, thorough):
+    s_model_checks(ck, thorough)
+    files = ck.generate(SPEC, "SwitchResGen", "SwitchResGen.cfg", 300 if thorough else 60, 16,
+                        constants={"MaxLen": 14 if thorough else 12}, name="gen_switchres", timeout=300)
+    plans = s_plans_from_behaviours(files)
+    pf = os.path.join(ck.out, "plans_s.ndjson")
+    core.write_ndjson(pf, plans)
+    trace = s_execute(ck, {"VERIF_C13S_ENUM": 1, "VERIF_C13S_PLANS": pf}, "exec_s")
+    if trace is None:
+        return
+    recs, runs, rejected = s_judge(ck, trace, "all")
+    if not rejected:
+        s_negative_controls(ck, recs, runs)
+    distinct = set()
+    for run in runs:
+        distinct.add(core.sha(run["kind"] + str([(r["a"], r["e"], r["st"], r["op"], r["pk"], r["rs"]) for r in
+                                                 recs[run["start"]:run["end"]]])))
+    one = lambda run: recs[run["start"]:run["end"]]
+    ck.cov["switchres"] = dict(
+        runs=len(runs), lines=len(recs), from_model_behaviours=len(plans),
+        per_kind=dict(collections.Counter(r["kind"] for r in runs)),
+        events=dict(collections.Counter(r["a"] for r in recs)),
+        responses_handed_to_incoming_link=dict(collections.Counter("%s/%s" % (r["pk"], r["rs"]) for r in recs if r["a"] == "Recv")),
+        replayed_after_restart=sum(1 for run in runs for j, r in enumerate(one(run)) if r["a"] == "Recv"
+                                   and any(x["a"] == "Restart" for x in one(run)[:j])),
+        store_emptied_at_restart=sum(1 for run in runs for j, r in enumerate(one(run)) if r["a"] == "Restart" and j > 0
+                                     and one(run)[j - 1]["st"] == 1 and r["st"] == 0),
+        multi_restart=sum(1 for run in runs if sum(1 for r in one(run) if r["a"] == "Restart") > 1),
+        distinct_runs=len(distinct), rejected=rejected)
+    ck.cov["evaluations"] += len(recs)
+    ck.cov["traces_validated_against_impl"] += len(runs)
+    ck.cov["distinct_nontrivial"] += len(distinct)
+    for run in [r for r in runs if "Restart" in r["plan"]][:1]:
+        ck.cov["samples"].append({"switchres_plan": run["plan"],
+                                  "events": ["%s:%s" % (r["a"], (r["pk"] + "/" + r["rs"]) if r["a"] == "Recv" else
+                                                        "st%d/op%d" % (r["st"], r["op"])) for r in one(run)][:40]})
+
+
 def run(ck):
     thorough = ck.tier == "thorough"
     fx = fixed_set()
     if fx:
         ck.notes.append("validated against the model with repaired: %s" % ",".join(sorted(fx)))
     if getattr(ck, "replay", None):
+        plans_ = os.path.abspath(os.path.join(ck.replay, "plan_s.ndjson"))
+        if os.path.exists(plans_):
+            trace = s_execute(ck, {"VERIF_C13S_ENUM": 0, "VERIF_C13S_PLANS": plans_}, "replay_s")
+            if trace is not None:
+                recs, runs, _ = s_judge(ck, trace, "replay")
+                ck.cov.update(states=1, transitions=1, evaluations=len(recs), traces_validated_against_impl=len(runs))
+            return
+        planb = os.path.abspath(os.path.join(ck.replay, "plan_b.ndjson"))
+        if os.path.exists(planb):
+            part_b(ck, thorough, replay_plan=planb)
+            return
         planm = os.path.abspath(os.path.join(ck.replay, "plan_m.ndjson"))
         if os.path.exists(planm):
             cs = core.read_ndjson(planm)[0]["cs"]
@@ -710,6 +1135,11 @@ def run(ck):
         ck.cov.update(states=1, transitions=1, evaluations=len(recs), traces_validated_against_impl=len(runs))
         return
 
+    if os.environ.get("C13_ONLY"):      # development: only the named sibling parts (B, S, M)
+        for part in os.environ["C13_ONLY"].split(","):
+            {"B": part_b, "M": part_m, "S": globals().get("part_s")}[part](ck, thorough)
+        ck.cov["rule"] = "development run of parts %s only" % os.environ["C13_ONLY"]
+        return
     model_checks(ck, thorough)
     # single crash points: every scenario in both tiers (a run costs ~0.1 s); model-generated multi-crash plans:
     # the two force-close scenarios + the far-from-expiry one in quick, all in thorough
@@ -763,10 +1193,20 @@ def run(ck):
                                              recs[run_["start"]:run_["end"]] if r["a"] != "Block"][:60]})
     if not os.environ.get("C13_NO_CHAINARB"):
         part_m(ck, thorough)
+    if not os.environ.get("C13_NO_BREACH"):
+        part_b(ck, thorough)
+    if not os.environ.get("C13_NO_SWITCHRES"):
+        part_s(ck, thorough)
     ck.cov["rule"] += ("; part M (ChainArb): one run = 1-3 pending-close channels of different profiles driven to the end by "
                        "the real ChainArbitrator under a stop plan + an order of sweep confirmations (every single stop point "
                        "for two orders, plans from TLC-simulated behaviours of ChainArbGen, seeded random plans); distinct = "
                        "distinct (channel set, sequence of recorded events) hashes")
+    ck.cov["rule"] += ("; part B (BreachJustice): one run = one breach driven to the end on the real BreachArbitrator + "
+                       "breachResolver under a token plan (6 base orders x no stop / stop+start at every position / injected "
+                       "stop at the k-th durable write, double stops, plans from TLC-simulated behaviours); part S (SwitchRes): "
+                       "one run = one forwarded HTLC whose resolution (fail | settle) is handed to the real Switch under a plan of "
+                       "Deliver / LinkDown / LinkUp / Teardown / Restart steps (built-in shapes + TLC-simulated behaviours); "
+                       "distinct = distinct sequences of recorded events")
     ck.cov["trusted_base"] = [
         "TLC 1.8.0, CommunityModules Json",
         "executor: durable writes outside the arbitrator log (MarkChannelClosed, MarkCommitmentBroadcasted, nursery, "
@@ -777,6 +1217,13 @@ def run(ck):
         "notifier model: tip on epoch registration, historical spend dispatch, spends delivered per outpoint only; sweeper "
         "model: a sweep confirms only for a signable request of that outpoint (taproot: control block present), zero-fee "
         "second-level txs confirm as re-signed aggregated txs with another txid; outpoint roles named by table lookup",
+        "part B: chain = lntest/mock SpendNotifier (spends survive a restart, historical dispatch) + a confirmation that is "
+        "re-delivered to later registrations; the close observer's CloseChannel(BreachClose, pending) and the arbitrator's "
+        "InsertUnresolvedContracts(breachResolver) are issued by the driver through lnd's own functions; an injected stop = "
+        "the k-th durable write and all later ones of that incarnation fail, then everything is stopped and started; "
+        "projection: RetributionStore.IsBreached, FetchClosedChannel, FetchUnresolvedContracts",
+        "part S: htlcswitch test fixtures (mockServer, mockChannelLink, mock obfuscator: reason class = what "
+        "newMockDeobfuscator().DecryptError returns); projection: fetchAllResolutionMsg, circuits.NumOpen",
         "part M: initial durable state of a pending-close channel written through lnd's own LogContractResolutions / "
         "InsertConfirmedCommitSet / CloseChannel (what the close handler persists); write attribution read off the database "
         "(log scope key of the transaction, diff of the per-channel projection)"]
@@ -786,6 +1233,12 @@ def run(ck):
         "with HTLC outputs; the anchor is never swept; no commit-sweep resolver there (part M has it)",
         "part M: channels c1 (legacy, commit sweep), c2 (legacy, + expired offered HTLC), c3 (taproot, + anchor), all closed "
         "by the remote commitment, start state = right after the close handler's three writes; no blocks are fed",
+        "part B: one channel, breached commitment with to-local, to-remote and one HTLC output; the counterparty may take the "
+        "two commitment outputs itself (no second-level HTLC spend); outputs are spent on chain only once the channel is "
+        "marked pending (EnvPending); no block epochs (no split justice txs); a driver wait that runs out (60 s) is "
+        "inconclusive, not a verdict",
+        "part S: one forwarded HTLC (incoming link A, outgoing channel resolved on chain), resolution kind fail | settle, "
+        "<= 3 sends of the same resolution; locally initiated payments (no incoming link) are not covered",
         "a crash loses exactly the volatile state; every kvdb Update and every external durable effect is atomic",
         "the exhaustive run of the repaired design assumes that StateWaitingFullResolution is committed before a resolver "
         "checkpoints (CommitBeforeCheckpoint, H3 - the run without it exhibits the overwrite); trace validation does not",
